@@ -72,6 +72,8 @@ type Case struct {
 	VerifyBatch int     `json:"verify_batch"`
 	LoadVerify  bool    `json:"load_verify"` // LoadOptions.VerifyMetrics
 	Perturb     Perturb `json:"perturb"`
+	// ZeroBasedDest: the database the dump is loaded into hands out ids from 0 (as Neo4j does), not from 1
+	ZeroBasedDest bool `json:"zero_based_dest,omitempty"`
 }
 
 // toGo converts a Val into the Go value a driver would hand to DAWGS.
@@ -235,7 +237,7 @@ func genCase(t *rapid.T) Case {
 	ng := rapid.SampledFrom([]int{1, 1, 2, 2, 3}).Draw(t, "ngraphs")
 	names := append([]string(nil), graphNames...)
 	// (ids are unsigned 64-bit values: the upper half of the range prints as a negative number through graph.ID.String)
-	nextNodeID := rapid.SampledFrom([]uint64{1, 1, 5, 1000, 1 << 33, 1 << 62, 1<<63 - 3, 1 << 63, math.MaxUint64 - (1 << 24)}).Draw(t, "idbase")
+	nextNodeID := rapid.SampledFrom([]uint64{0, 1, 1, 5, 1000, 1 << 33, 1 << 62, 1<<63 - 3, 1 << 63, math.MaxUint64 - (1 << 24)}).Draw(t, "idbase")
 	nextEdgeID := uint64(rapid.SampledFrom([]int{1, 3, 700, 1 << 32}).Draw(t, "eidbase"))
 	maxNodes, maxEdges := 7, 9
 	var allN, allE []int
@@ -326,6 +328,7 @@ func genCase(t *rapid.T) Case {
 	c.LoadBatch = around(t, "load_batch", counts...)
 	c.VerifyBatch = around(t, "verify_batch", counts...)
 	c.LoadVerify = rapid.Bool().Draw(t, "load_verify")
+	c.ZeroBasedDest = rapid.IntRange(0, 3).Draw(t, "zero_based_dest") == 0
 	c.Perturb = Perturb{
 		Kind:  rapid.SampledFrom([]string{"add_node", "del_node", "set_kinds", "add_edge", "del_edge", "rewire", "edge_kind", "readd_edge", "prop"}).Draw(t, "pk"),
 		Graph: pickGraph(t, c.Graphs),
